@@ -140,6 +140,8 @@ fn run(case: &Case09, with_upgrades: bool, sliced: bool, out: &mut Outcome) -> O
                 if !with_upgrades {
                     continue;
                 }
+                // observe the fee percentiles so that there is a stored answer the upgrade could lose
+                let fees_before = sut::fee_percentiles(hw.w.cfg.net);
                 let before = snapshot::take(&hw.w);
                 let (partial, paused) = can::with_state(|s| (s.syncing_state.response_to_process.is_some(), s.utxos.ingesting_block.is_some()));
                 let forked = hw.w.model.leaves().len() >= 2;
@@ -182,6 +184,16 @@ fn run(case: &Case09, with_upgrades: bool, sliced: bool, out: &mut Outcome) -> O
                     } else {
                         out.fail(format!("event {i}: get_blockchain_info().utxos_length changed from {} to {} across the upgrade (unstable contribution {want_delta})", before.utxos_length, after.utxos_length));
                     }
+                }
+                let fees_after = sut::fee_percentiles(hw.w.cfg.net);
+                if fees_before != fees_after {
+                    out.fail(format!(
+                        "event {i}: get_current_fee_percentiles answered {:?} values before the upgrade and {:?} after it although the tip did not change",
+                        fees_before.as_ref().map(|v| v.len()), fees_after.as_ref().map(|v| v.len())
+                    ));
+                }
+                if fees_before.as_ref().map(|v| !v.is_empty()).unwrap_or(false) {
+                    out.class("upgrade_with_stored_fee_percentiles");
                 }
                 let (fetching, resp) = can::with_state(|s| (s.syncing_state.is_fetching_blocks, s.syncing_state.response_to_process.is_some()));
                 if fetching || resp {
@@ -304,7 +316,7 @@ impl Property for C09 {
         serde_json::json!({"final_arg": format!("{:?}", case.final_arg), "scenario": scenario_brief(&case.scenario)})
     }
     fn required_classes(&self, _tier: Tier) -> Vec<&'static str> {
-        vec!["upgrade_with_stored_response", "upgrade_while_ingestion_paused", "upgrade_on_forked_tree", "upgrade_with_argument", "twin_sequences_compared"]
+        vec!["upgrade_with_stored_response", "upgrade_while_ingestion_paused", "upgrade_on_forked_tree", "upgrade_with_argument", "twin_sequences_compared", "upgrade_with_stored_fee_percentiles"]
     }
     fn max_shrink_iters(&self) -> u32 {
         250
